@@ -318,6 +318,120 @@ fn host_kind<const HN: usize, const RN: usize, const UN: usize>(la: bool, ra: bo
 std_harness!(8, fn c02_host_left() { host_kind::<2, 3, 9>(true, false); });
 std_harness!(8, fn c02_host_both() { host_kind::<2, 3, 9>(true, true); });
 
+/// `||fh*f` (host-anchored, wildcard after the host text, then a literal that may occur anywhere later): the arm
+/// `check_pattern_hostname_anchor_filter`. Its `str::contains` is replaced by the naive substring search of the
+/// shim in the scratch copy (std's SIMD search does not finish under Kani). Oracle: some occurrence of fh in the
+/// host starts at a label boundary, and f occurs in the URL text somewhere after that occurrence.
+fn host_unanchored_kernel<const HN: usize, const RN: usize>() {
+    let mut dr = crate::verif_shim::Draw::new();
+    let hb: [u8; HN] = dr.bytes::<HN>();
+    let hl: usize = dr.usize();
+    let rb: [u8; RN] = dr.bytes::<RN>();
+    let rl: usize = dr.usize();
+    let fb: [u8; 2] = dr.bytes::<2>();
+    let fl: usize = dr.usize();
+    let tb: [u8; 2] = dr.bytes::<2>();
+    let tl: usize = dr.usize();
+    kani::assume(hl >= 1 && hl <= HN);
+    let mut i = 0;
+    while i < HN {
+        kani::assume(hostc(hb[i]));
+        i += 1;
+    }
+    assume_valid_host(&rb, rl);
+    let (f, tail) = (sym_ascii(&fb, fl), sym_ascii(&tb, tl));
+    kani::assume(fl >= 1);
+    kani::assume(tl == 0 || tb[0] == b'/' || tb[0] == b':' || tb[0] == b'?');
+    let fh = unsafe { core::str::from_utf8_unchecked(&hb[..hl]) };
+    let rh = unsafe { core::str::from_utf8_unchecked(&rb[..rl]) };
+    let mut url = String::from("s://");
+    url.push_str(rh);
+    url.push_str(tail);
+    let mut ub = [0u8; 10];
+    ub[0] = b's';
+    ub[1] = b':';
+    ub[2] = b'/';
+    ub[3] = b'/';
+    let mut n = 4;
+    let mut i = 0;
+    while i < RN {
+        if i < rl {
+            ub[n] = rb[i];
+            n += 1;
+        }
+        i += 1;
+    }
+    let mut i = 0;
+    while i < 2 {
+        if i < tl {
+            ub[n] = tb[i];
+            n += 1;
+        }
+        i += 1;
+    }
+    let req = mk_req(&url, rh);
+    let mask = NetworkFilterMask::DEFAULT_OPTIONS | NetworkFilterMask::IS_HOSTNAME_ANCHOR | NetworkFilterMask::IS_HOSTNAME_REGEX;
+    let part = FilterPart::Simple(String::from(f));
+    let mut rm = RegexManager::default();
+    let got = check_pattern(mask, part.iter(), Some(fh), 0, &req, &mut rm);
+    let (fhb, rhb, fbs) = (fh.as_bytes(), rh.as_bytes(), f.as_bytes());
+    let u = &ub[..n];
+    let mut first = usize::MAX;
+    if fhb.len() == 1 && fhb[0] == b's' {
+        first = 0;
+    }
+    let mut q = 0;
+    while q < RN {
+        if first == usize::MAX && q + fhb.len() <= rhb.len() && eq_at(rhb, q, fhb) {
+            first = 4 + q;
+        }
+        q += 1;
+    }
+    let mut want = false;
+    let mut p0 = usize::MAX; // first occurrence that starts at a label boundary
+    let mut p = 0;
+    while p < RN {
+        if p + fhb.len() <= rhb.len() && eq_at(rhb, p, fhb) {
+            let e = p + fhb.len();
+            let left = p == 0 || fhb[0] == b'.' || rhb[p - 1] == b'.';
+            if left && p0 == usize::MAX {
+                p0 = p;
+            }
+            if left {
+                // f anywhere at or after the end of this occurrence
+                let mut k = 0;
+                let mut occ = false;
+                while k < 10 {
+                    if k >= 4 + e && eq_at(u, k, fbs) {
+                        occ = true;
+                    }
+                    k += 1;
+                }
+                if occ {
+                    want = true;
+                }
+            }
+        }
+        p += 1;
+    }
+    // recorded role: the implementation cuts the URL after the FIRST occurrence of the filter host in the whole URL
+    // text; it is the occurrence the semantics start from exactly when it is the first label-boundary occurrence
+    // in the host (any later one only shortens the text to search)
+    let cut_is_right = p0 != usize::MAX && first == 4 + p0;
+    if cut_is_right || p0 == usize::MAX {
+        assert!(got == want, "P:host_unanchored.literal_somewhere_after_the_host_text");
+    } else {
+        assert!(got == want, "K:remainder-after-first-occurrence-in-url:host_unanchored.remainder");
+    }
+    kani::cover!(got && cut_is_right, "W:host_unanchored.match");
+    kani::cover!(!got && cut_is_right, "W:host_unanchored.no_match");
+    core::mem::forget(req);
+    core::mem::forget(rm);
+    core::mem::forget(part);
+    core::mem::forget(url);
+}
+std_harness!(12, fn c02_host_unanchored() { host_unanchored_kernel::<2, 3>(); });
+
 // ---------------------------------------------------------------------------------------------- C03.opts
 fn type_bit(t: u8) -> (request::RequestType, NetworkFilterMask) {
     use request::RequestType as R;
